@@ -1534,3 +1534,21 @@ mutant("c10-reflect-kind-guard-dropped", "C10", "C10-D7", "parser/json/binary.go
        "if pholder.Kind() == reflect.Bool && pholder.Bool() && num.Kind() == reflect.Float64 {", "if pholder.Bool() && num.Kind() == reflect.Float64 {", count=0)
 mutant("c10-parse-error-under-lock", "C10", "C10-D8", "client_manager.go",
        "				go m.onClose(ReasonParseError, err)", "				m.onClose(ReasonParseError, err)")
+
+# ---------------------------------------------------------------- C06 (round 2)
+mutant("c06-ping-timeout-leaves-transport-open", "C06", "C06-D7", "engine.io/server_socket.go",
+       "		if reason != ReasonTransportClose && reason != ReasonTransportError {", "		if reason != ReasonTransportClose && reason != ReasonTransportError && reason != ReasonPingTimeout {")
+mutant("c06-client-forced-close-leaves-transport", "C06", "C06-D7", "engine.io/client_socket.go",
+       "		if reason != ReasonTransportClose && reason != ReasonTransportError {", "		if reason == ReasonPingTimeout || reason == ReasonParseError {")
+mutant("c06-join-noop-only-with-recovery", "C06", "C06-D6", "server_socket.go",
+       """			s.debug.Log("Connection state recovery is enabled")
+""",
+       """			s.debug.Log("Connection state recovery is enabled")
+			s.joinMu.Lock()
+			s.join = func(room ...Room) {}
+			s.joinMu.Unlock()
+""", )
+MUTANTS[-1]["then"] = ("""		s.joinMu.Lock()
+		s.join = func(room ...Room) {}
+		s.joinMu.Unlock()
+		wg.WaitTimeout(10 * time.Second)""", """		wg.WaitTimeout(10 * time.Second)""")
